@@ -395,6 +395,8 @@ def write_manifest(root):
              "serves_properties": sorted(p for p in PROPS if PROPS[p].get("engine") == "E-crash")},
             {"name": "E-conc", "path": "harness/props/c05", "kind_free_text": "gated concurrent histories checked with porcupine / race detector",
              "serves_properties": sorted(p for p in PROPS if PROPS[p].get("engine") == "E-conc")},
+            {"name": "E-fault", "path": "harness/props/c11/sys.go", "kind_free_text": "generated database programs in a child process whose write/read/fsync/directory system calls are failed by strace fault injection (per file or per call number), and whose table writers are failed through the writer-open hook; oracle = the directory reopened without faults holds the acknowledged operations",
+             "serves_properties": ["C11"]},
         ],
         "checks": checks,
         "not_applicable": na,
